@@ -94,17 +94,12 @@ func (d *Data) sortByBlockCoord(pts []dvid.Point3d) blockPtsSlice {
 	blockPts := make(blockPtsSlice, 0, indexStartSize)
 	blockSize := d.BlockSize().(dvid.Point3d)
 	for origPos, pt := range pts {
-		// Autogenerated.
-		x := pt[0] / blockSize[0]
-		y := pt[1] / blockSize[1]
-		z := pt[2] / blockSize[2]
-		bx := pt[0] % blockSize[0]
-		by := pt[1] % blockSize[1]
-		bz := pt[2] % blockSize[2]
-		bcoord := dvid.ChunkPoint3d{x, y, z}.ToIZYXString()
+		// block and offset within it by floor division, so negative coordinates are handled
+		bcoord := pt.ToBlockIZYXString(blockSize)
+		bpt := pt.Point3dInChunk(blockSize)
 		i, found := blockIndex[bcoord]
 		if found {
-			blockPts[i].pts = append(blockPts[i].pts, dvid.Point3d{bx, by, bz})
+			blockPts[i].pts = append(blockPts[i].pts, bpt)
 			blockPts[i].indices = append(blockPts[i].indices, origPos)
 		} else {
 			i = len(blockPts)
@@ -114,7 +109,7 @@ func (d *Data) sortByBlockCoord(pts []dvid.Point3d) blockPtsSlice {
 					BCoord: bcoord,
 				},
 				ptsIndex: ptsIndex{
-					pts:     []dvid.Point3d{dvid.Point3d{bx, by, bz}},
+					pts:     []dvid.Point3d{bpt},
 					indices: []int{origPos},
 				},
 			})
@@ -128,14 +123,9 @@ func (d *Data) partitionPoints(pts []dvid.Point3d) map[dvid.IZYXString]ptsIndex 
 	blockSize := d.BlockSize().(dvid.Point3d)
 	blockPts := make(map[dvid.IZYXString]ptsIndex)
 	for i, pt := range pts {
-		x := pt[0] / blockSize[0]
-		y := pt[1] / blockSize[1]
-		z := pt[2] / blockSize[2]
-		bx := pt[0] % blockSize[0]
-		by := pt[1] % blockSize[1]
-		bz := pt[2] % blockSize[2]
-		bpt := dvid.Point3d{bx, by, bz}
-		bcoord := dvid.ChunkPoint3d{x, y, z}.ToIZYXString()
+		// block and offset within it by floor division, so negative coordinates are handled
+		bcoord := pt.ToBlockIZYXString(blockSize)
+		bpt := pt.Point3dInChunk(blockSize)
 		ptsi, found := blockPts[bcoord]
 		if found {
 			ptsi.pts = append(ptsi.pts, bpt)
